@@ -2873,4 +2873,5 @@ def _str_parse(ex, st, c, args, dty):
     err = Adt("Result", "Err", (Adt("ParseIntError", None, ()),))
     in_range = z3.And(x >= lo, x <= hi)
     unsure = z3.And(wf, z3.Not(fits), z3.Not(overflows))  # between the two digit counts: either outcome (over-approximation)
-    return [(z3.And(z3.Or(fits, unsure), in_range), okv), (z3.Or(z3.Not(wf), overflows, unsure), err)]
+    # separate Err cases so that a panic on the definite-overflow path gets a model that replays natively
+    return [(z3.And(z3.Or(fits, unsure), in_range), okv), (z3.Not(wf), err), (overflows, err), (unsure, err)]
